@@ -101,7 +101,7 @@ Ltac post_script R' N K rf mk HK HN :=
       asgo;
       assign3x ltac:(evno; rewrite max_all_some by (now apply tab2_nonempty); evno; reflexivity);
       assign3x ltac:(evno; rewrite full_guard by (apply zmax_tab2_nonneg; [exact HK|exact HN|intros; apply count_row_nonneg]);
-                     rewrite !Nat2Z.id, full_3; reflexivity);
+                     rewrite !Nat2Z.id, ?full_3; reflexivity);
       assign3x ltac:(evno;
                      match goal with |- context [arange ?z] =>
                        rewrite <- (Z2Nat.id z) at 1 by (apply zmax_tab2_nonneg; [exact HK|exact HN|intros; apply count_row_nonneg])
@@ -123,3 +123,31 @@ Section Post.
       apply runs_to_ok. unfold oc_stage1, widthf, cntf, flatf, finf, gath, sref, sidx, propf, rcolz. cbv zeta. close_known3.
   Qed.
 End Post.
+
+(* ---- oc_fin: the scatter, the transposition of batch-first output, return ------------------------------------------- *)
+Section Fin.
+  Variables (bf : bool) (R' N K : nat) (rf : nat -> nat -> Z) (mk : nat -> nat -> nat -> bool) (pad : Z).
+  Notation C := (widthf R' N K rf mk).
+
+  Definition oc_result (outf : nat -> nat -> nat -> Z) : val :=
+    enc_i (if bf then mkTn [N; K; C] (tab3 N K C (fun n k c => outf k n c)) else mkTn [K; N; C] (tab3 K N C outf)).
+
+  Lemma fin_run : forall st outf,
+    mscatter (tab3 K N C (fun k n c => (cntf R' rf mk k n >? Z.of_nat c)%Z)) (tab3 K N C (fun _ _ _ => pad)) (flatf R' N K rf mk)
+      = Some (tab3 K N C outf) ->
+    known3 st (oc_stage1 bf R' N K rf mk pad) ->
+    returns3 (oc_result outf) (exec ext03_oc oc_fin st).
+  Proof.
+    intros st outf Hsc K1. unfold oc_stage1 in K1. cbv zeta in K1. open_known3 K1. unfold oc_fin, oc_result.
+    match goal with
+    | Hx : lookup "targets" (vars ?s0) = Some ?tv, H1 : lookup "target_mask" (vars ?s0) = Some ?v1,
+      H2 : lookup "targets_flat" (vars ?s0) = Some ?v2 |- context [exec ext03_oc (SSeq (SExpr (EMeth _ ?m _ _)) ?b) ?s0] =>
+        erewrite (xexec_seq_mutmeth2 ext03_oc "targets" m "target_mask" "targets_flat" b s0 tv v1 v2 _ Hx H1 H2 eq_refl);
+        [| rewrite exto_masked_scatter; unfold masked_scatter; cbn [shp dat]; rewrite nats_eqb_refl, Hsc; reflexivity ]
+    end.
+    push_state.
+    destruct bf.
+    - ifstepo. asgo. cbn [exec eval]. look. cbn [bind]. eexists. reflexivity.
+    - ifstepo. seqnorm3. cbn [exec eval]. look. cbn [bind]. eexists. reflexivity.
+  Qed.
+End Fin.
